@@ -81,6 +81,7 @@ type c13Outcome struct {
 	After      map[string]int `json:"after,omitempty"` // follow-up probes against the healed store
 	Flags      []string      `json:"flags,omitempty"`
 	Note       string        `json:"note,omitempty"`
+	Note2      string        `json:"observation,omitempty"`
 }
 
 var c13Modes = []string{"noretry", "retry", "cluster", "sentinel"}
@@ -186,6 +187,7 @@ func (c *c13Cell) run(scn string, mode string, faults []c13Fault) *c13Outcome {
 		}
 	}
 	// arm
+	c.hub.ResetLog()
 	var mu sync.Mutex
 	count := 0
 	var ops []string
@@ -237,6 +239,19 @@ func (c *c13Cell) run(scn string, mode string, faults []c13Fault) *c13Outcome {
 	mu.Lock()
 	out.Ops = append([]string{}, ops...)
 	mu.Unlock()
+	// a stalled command whose reply the client still waited for (starved box: its read timeout fired late or not at all) was
+	// answered late but intact: not a failed operation. The front marks those "stall-delivered".
+	for _, lc := range c.hub.Log() {
+		if lc.Inst == c.n && lc.Fault == "stall-delivered" {
+			for i, o := range out.Ops {
+				if o == lc.Op+"!stall" {
+					out.Ops[i] = lc.Op
+					out.Note2 = "a stalled " + lc.Op + " was answered late but intact (client still waiting)"
+					break
+				}
+			}
+		}
+	}
 	out.Status, out.Panic, out.SetCookies = resp.Code, resp.Panic, resp.SetCookies()
 	switch scn {
 	case "request", "refresh", "refresh-norefreshtoken":
